@@ -48,6 +48,52 @@ Proof.
   apply T_catch; [apply T_call_unit; gen|]. intros e q He. inversion He. apply T_call_unit; gen.
 Qed.
 
+(* everything above trash_file_in, for any logic in which trash_file_in is fine *)
+Section FromTfi.
+Variable path : str.
+Hypothesis Htfi : forall c volume, TT (trash_file_in c o path volume) (fun _ => True).
+
+Lemma tfi_try_candidates volume : forall cs failures, TT (try_candidates cs o path volume failures) (fun _ => True).
+Proof.
+  induction cs as [|c cs IH]; intros failures; cbn [try_candidates].
+  - eapply T_bind; [apply (safe_describe L Hplain')|]. intros d _.
+    apply T_seq; [apply T_call_unit; gen|]. apply T_seq; [apply (safe_log_failures L Hplain')|aret].
+  - apply T_seq; [apply T_call_unit; gen|]. eapply T_bind; [apply Htfi|]. intros r _.
+    destruct r; [apply IH|]. apply T_seq; [apply T_call_unit; gen|aret].
+Qed.
+
+Lemma tfi_trash_file : TT (trash_file path o) (fun _ => True).
+Proof.
+  unfold trash_file. eapply T_bind with (Q' := fun _ => True).
+  - destruct (po_forced_volume o) as [[|c x]|]; try apply (safe_volume_of_parent L Hplain'). aret.
+  - intros volume _. eapply T_bind; [apply (safe_possible_trash_directories_for L Hplain')|]. intros cs _. apply tfi_try_candidates.
+Qed.
+
+Lemma tfi_report : TT (d <- describe path ;; log WARNING true ($"cannot trash " ++ d ++ $" '" ++ path ++ $"'") ;;; Ret false) (fun _ => True).
+Proof. eapply T_bind; [apply (safe_describe L Hplain')|]. intros d _. apply T_seq; [apply T_call_unit; gen|aret]. Qed.
+
+Lemma tfi_trash_single : TT (trash_single path o) (fun _ => True).
+Proof.
+  unfold trash_single. destruct (should_skipped_by_specs path); [apply tfi_report|].
+  eapply T_bind; [apply T_call_bool; gen|]. intros e _. destruct e; simpl.
+  2:{ destruct (po_mode o); try apply tfi_report. aret. }
+  eapply T_bind; [apply T_call_bool; gen|]. intros acc _.
+  destruct (po_mode o) eqn:Em; try apply tfi_trash_file.
+  destruct acc; [|apply tfi_trash_file].
+  eapply T_bind; [apply (safe_describe L Hplain')|]. intros d _.
+  eapply T_bind; [apply T_call_str; apply Hinp; reflexivity|]. intros reply _.
+  destruct (parse_user_reply reply); [apply tfi_trash_file|aret].
+Qed.
+End FromTfi.
+
+Lemma all_trash_each (Hone : forall path, TT (trash_single path o) (fun _ => True)) : forall paths, TT (trash_each paths o) (fun _ => True).
+Proof.
+  induction paths as [|p ps IH]; cbn [trash_each]; [aret|].
+  eapply T_bind; [apply Hone|]. intros ok _. eapply T_bind; [apply IH|]. intros r _. aret.
+Qed.
+Lemma all_put_main (Hone : forall path, TT (trash_single path o) (fun _ => True)) : TT (put_main o) (fun _ => True).
+Proof. unfold put_main. eapply T_bind; [apply all_trash_each; exact Hone|]. intros failed _. aret. Qed.
+
 Section OneArg.
 Variable path : str.
 Hypothesis Hmove : forall dst, OKop L (Move (normpath path) dst).
@@ -69,36 +115,9 @@ Proof.
   eapply T_bind; [apply all_try_persist|]. intros r5 _. destruct r5; try aret. apply all_try_trash.
 Qed.
 
-Lemma all_try_candidates volume : forall cs failures, TT (try_candidates cs o path volume failures) (fun _ => True).
-Proof.
-  induction cs as [|c cs IH]; intros failures; cbn [try_candidates].
-  - eapply T_bind; [apply (safe_describe L Hplain')|]. intros d _.
-    apply T_seq; [apply T_call_unit; gen|]. apply T_seq; [apply (safe_log_failures L Hplain')|aret].
-  - apply T_seq; [apply T_call_unit; gen|]. eapply T_bind; [apply all_trash_file_in|]. intros r _.
-    destruct r; [apply IH|]. apply T_seq; [apply T_call_unit; gen|aret].
-Qed.
-
 Lemma all_trash_file : TT (trash_file path o) (fun _ => True).
-Proof.
-  unfold trash_file. eapply T_bind with (Q' := fun _ => True).
-  - destruct (po_forced_volume o) as [[|c x]|]; try apply (safe_volume_of_parent L Hplain'). aret.
-  - intros volume _. eapply T_bind; [apply (safe_possible_trash_directories_for L Hplain')|]. intros cs _. apply all_try_candidates.
-Qed.
-
-Lemma all_report : TT (d <- describe path ;; log WARNING true ($"cannot trash " ++ d ++ $" '" ++ path ++ $"'") ;;; Ret false) (fun _ => True).
-Proof. eapply T_bind; [apply (safe_describe L Hplain')|]. intros d _. apply T_seq; [apply T_call_unit; gen|aret]. Qed.
-
+Proof. apply tfi_trash_file. apply all_trash_file_in. Qed.
 Lemma all_trash_single : TT (trash_single path o) (fun _ => True).
-Proof.
-  unfold trash_single. destruct (should_skipped_by_specs path); [apply all_report|].
-  eapply T_bind; [apply T_call_bool; gen|]. intros e _. destruct e; simpl.
-  2:{ destruct (po_mode o); try apply all_report. aret. }
-  eapply T_bind; [apply T_call_bool; gen|]. intros acc _.
-  destruct (po_mode o) eqn:Em; try apply all_trash_file.
-  destruct acc; [|apply all_trash_file].
-  eapply T_bind; [apply (safe_describe L Hplain')|]. intros d _.
-  eapply T_bind; [apply T_call_str; apply Hinp; reflexivity|]. intros reply _.
-  destruct (parse_user_reply reply); [apply all_trash_file|aret].
-Qed.
+Proof. apply tfi_trash_single. apply all_trash_file_in. Qed.
 End OneArg.
 End PutAll.
